@@ -44,35 +44,36 @@ type ModTarget struct {
 }
 
 type FuncContract struct {
-	Pkg        string // package name of the file the contract was read from
-	Key        string // canonical short function name
-	Props      []string
-	Requires   []Clause
-	Ensures    []Clause
-	Modifies   []ModTarget // nil: unspecified
-	HasMod     bool
-	Loops      map[int]*LoopSpec
-	Asserts    []PointAssert
-	Trusted    bool
-	Inline     bool
-	Terminates bool            // termination obligations: loop measures and recursion measure
-	Decreases  *Clause         // function-level measure for (self-)recursive calls
-	GhostSets  []GhostSet      // ghost assignments performed on entry (specification state updated by this function)
-	OwnReads   []string        // heap key prefixes: plain loads from these keys must read objects allocated by this activation
-	Callbacks  map[string][]ModTarget // assumed frame of calls through a function-valued parameter (what any callback handed in may write)
-	GoOwns     []string        // captured variables of a goroutine body that only this goroutine touches while it runs: their cell and element storage survive its channel operations
-	AtomicOnly []string        // captured variables of a goroutine body that may only be accessed through sync/atomic: no plain load or store may touch their cell
-	Guards     []Guard         // lock discipline: plain accesses to these keys need the condition
-	MapKeys    []Guard         // domain refinement: every key stored into a map with this domain key satisfies Cond ($key)
-	Abstract   map[string]bool // callees that are not inlined while this function is verified: their effect is their static write set
-	PointSets  []PointSet
-	OwnWrites  []string        // heap key prefixes: stores into these keys must target objects allocated by this activation
-	Calls      []string        // parameters holding functions the callee may invoke: their write sets are added at call sites
-	Reveal     map[string]bool // opaque spec functions unfolded while verifying this function
-	NoPanic    bool            // claim: no reachable panic instruction / bounds failure
-	Safety     bool            // generate bounds/nil/div obligations
-	File       string
-	Line       int
+	Pkg           string // package name of the file the contract was read from
+	Key           string // canonical short function name
+	Props         []string
+	Requires      []Clause
+	Ensures       []Clause
+	Modifies      []ModTarget // nil: unspecified
+	HasMod        bool
+	Loops         map[int]*LoopSpec
+	Asserts       []PointAssert
+	Trusted       bool
+	Inline        bool
+	Terminates    bool                   // termination obligations: loop measures and recursion measure
+	Decreases     *Clause                // function-level measure for (self-)recursive calls
+	GhostSets     []GhostSet             // ghost assignments performed on entry (specification state updated by this function)
+	OwnReads      []string               // heap key prefixes: plain loads from these keys must read objects allocated by this activation
+	Callbacks     map[string][]ModTarget // assumed frame of calls through a function-valued parameter (what any callback handed in may write)
+	WritesThrough []string               // captured variables a worker literal may store through (nil: not declared)
+	GoOwns        []string               // captured variables of a goroutine body that only this goroutine touches while it runs: their cell and element storage survive its channel operations
+	AtomicOnly    []string               // captured variables of a goroutine body that may only be accessed through sync/atomic: no plain load or store may touch their cell
+	Guards        []Guard                // lock discipline: plain accesses to these keys need the condition
+	MapKeys       []Guard                // domain refinement: every key stored into a map with this domain key satisfies Cond ($key)
+	Abstract      map[string]bool        // callees that are not inlined while this function is verified: their effect is their static write set
+	PointSets     []PointSet
+	OwnWrites     []string        // heap key prefixes: stores into these keys must target objects allocated by this activation
+	Calls         []string        // parameters holding functions the callee may invoke: their write sets are added at call sites
+	Reveal        map[string]bool // opaque spec functions unfolded while verifying this function
+	NoPanic       bool            // claim: no reachable panic instruction / bounds failure
+	Safety        bool            // generate bounds/nil/div obligations
+	File          string
+	Line          int
 }
 
 // Guard: every plain load or store of a heap key with the prefix needs Cond (typically: the mutex is held).
@@ -149,7 +150,7 @@ func newContractSet() *ContractSet {
 	return &ContractSet{Funcs: map[string]*FuncContract{}, Specs: map[string]*SpecFunc{}, Axioms: map[string]*Axiom{}, Ghosts: map[string]*GhostVar{}}
 }
 
-var keywordRe = regexp.MustCompile(`^(func|property|requires|ensures|modifies|loop|assert|trusted|inline|nopanic|safety|spec|axiom|lemma|invariant|ghostset|ghost|use|reveal|calls|ownwrites|ownreads|abstract|atomiconly|goroutineowns|callback|guarded|mapkeys|terminates|decreases|package)\b`)
+var keywordRe = regexp.MustCompile(`^(func|property|requires|ensures|modifies|loop|assert|trusted|inline|nopanic|safety|spec|axiom|lemma|invariant|ghostset|ghost|use|reveal|calls|ownwrites|ownreads|abstract|atomiconly|goroutineowns|writesthrough|callback|guarded|mapkeys|terminates|decreases|package)\b`)
 var labelRe = regexp.MustCompile(`^\[([A-Za-z0-9_.<>=%+\-]+)\]\s*(.*)$`)
 
 func canonFuncName(pkg, decl string) string {
@@ -456,6 +457,14 @@ func (cs *ContractSet) parseFile(path string, defaultPkg string) error {
 			}
 			cur.Callbacks[f[0]] = append(cur.Callbacks[f[0]], mts...)
 			cs.TrustedList = append(cs.TrustedList, cur.Key+" (assumed frame of the callback "+f[0]+": modifies "+f[2]+")")
+		case "writesthrough":
+			if cur == nil {
+				return fmt.Errorf("%s:%d: writesthrough outside func", path, it.line)
+			}
+			if cur.WritesThrough == nil {
+				cur.WritesThrough = []string{}
+			}
+			cur.WritesThrough = append(cur.WritesThrough, strings.Fields(strings.ReplaceAll(it.text, ",", " "))...)
 		case "goroutineowns":
 			if cur == nil {
 				return fmt.Errorf("%s:%d: goroutineowns outside func", path, it.line)
